@@ -346,6 +346,7 @@ class World:
         self.extra = []        # tasks created by identity(plain value)
         self._ident = {}
         self.oom_reason = ''
+        self.mutating = False
         RESULTS.clear()
         RESULTS.update(enumerate(desc['results']))
         del CALLS[:]
@@ -370,7 +371,7 @@ class World:
             for b, s in zip(blocks, stored):
                 self.tids(b.hash())
                 if s and dump:
-                    self.store.dump([pair(x) for x in b.args[1]], b.hash())
+                    self.store.dump([pair(x + md.get('shift', 0)) for x in b.args[1]], b.hash())
             self.maps.append((m, xs, bs, blocks, stored))
         self._results = {}
         self._stored = {}
@@ -381,6 +382,42 @@ class World:
             for b, s in zip(blocks, stored):
                 self._results[b.hash()] = [pair(x) for x in b.args[1]]
                 self._stored[b.hash()] = s
+        for k, md in enumerate(desc['maps']):
+            if md.get('shift', 0):
+                for b in self.maps[k][3]:
+                    self._results[b.hash()] = [pair(x + md['shift']) for x in b.args[1]]
+
+    # ---- histories: the same tasks, recomputed with other results / removed / added
+    def gen_state2(self, rng):
+        d = self.desc
+        results = [gen_result(rng, 3) if rng.random() < 0.3 else (gen_container(rng, 3) if rng.random() < 0.5 else r) for r in d['results']]
+        flip = lambda s: (not s) if rng.random() < 0.2 else s
+        return {'results': results, 'stored': [flip(s) for s in d['stored']],
+                'maps': [{'xs': md['xs'], 'bs': md['bs'], 'shift': rng.choice([0, 100, 100]), 'stored': [flip(s) for s in md['stored']]}
+                         for md in d['maps']]}
+
+    def apply_state(self, desc2):
+        """make the store (and what the reference knows) hold the state desc2: the same tasks with other
+        results / stored flags, written through the store as another worker would (remove + dump)"""
+        def put(h, val, stored):
+            if self.store.can_load(h):
+                self.store.remove(h)
+            if stored:
+                self.store.dump(val, h)
+            self._results[h] = val
+            self._stored[h] = stored
+        for i, (t, res, st) in enumerate(self.base):
+            new, s = desc2['results'][i], bool(desc2['stored'][i])
+            put(t.hash(), new, s)
+            self.base[i] = (t, new, s)
+        RESULTS.update(enumerate(desc2['results']))
+        for k, (m, xs, bs, blocks, stored) in enumerate(self.maps):
+            md = desc2['maps'][k]
+            newst = [bool(x) for x in md['stored']]
+            for b, s in zip(blocks, newst):
+                put(b.hash(), [pair(x + md.get('shift', 0)) for x in b.args[1]], s)
+            self.maps[k] = (m, xs, bs, blocks, newst)
+        self.desc = desc2
 
     def describe(self):
         return pyrepr(self.desc)
@@ -444,13 +481,17 @@ class World:
         # a defaultdict invents missing entries
         if isinstance(o, (str, bytes)) or isinstance(i, bool):
             self._oom('str index / bool index / return_tuple of dict')
+        self._note_mutation(o, i)
+        return o[i]
+
+    def _note_mutation(self, o, i):
         if isinstance(o, defaultdict):
             try:
                 if i not in o:
+                    self.mutating = True       # the read itself changes the result object: a second evaluation differs
                     self._oom('defaultdict indexed with a missing key')
             except TypeError:
                 pass
-        return o[i]
 
     def _positions(self, k, slices):
         m, xs, bs, blocks, stored = self.maps[k]
@@ -500,6 +541,7 @@ class World:
                 self._oom('str index / bool index / return_tuple of dict')   # len()/[] work on them; the model knows sequences only
             if len(o) != n:
                 raise ValueError('wrong length')
+            self._note_mutation(o, i)
             return o[i]
         if tag == 'mapseq':
             out = []
@@ -531,6 +573,7 @@ class World:
         self.reads = set()
         self._ref_cache = {}
         self.out_of_model = False
+        self.mutating = False
         self.oom_reason = ''
         try:
             out = ('ok', self.ref(s))
@@ -588,9 +631,10 @@ class World:
         return None
 
     # ---- canonical structure of a derived expression, for the consumer-hash oracle
-    def canon_spec(self, s):
+    def canon_spec(self, s, norm=False):
         """A hashable term such that, INSIDE the fragment it covers, two specs denote the same jug expression
-        iff their terms are equal: tasks, constant indices that are int (not bool) / str / None / slices of
+        iff their terms are equal (norm=False: slices literally; norm=True: slices up to what Python guarantees
+        equal for every length - used for the "must have different hashes" direction only): tasks, constant indices that are int (not bool) / str / None / slices of
         those, task- and tasklet-valued indices, iteratetask (= base[i]), return_tuple / partial(_get_check),
         Tasklet(base, wrap), identity (= its argument), CustomHash of one of these, mapped sequences, their
         slices (by the range they carry) and elements (= block[j]).  None = outside the fragment (NoHash hashes
@@ -600,27 +644,34 @@ class World:
             if ok(v):
                 return ('const', repr(v))
             if type(v) == slice and all(x is None or type(x) == int for x in (v.start, v.stop, v.step)):
+                if norm:
+                    # what Python guarantees equal for EVERY length: no step = step 1; for a positive step no
+                    # start = start 0 (for a negative step no start means "from the end": NOT 0)
+                    step = 1 if v.step is None else v.step
+                    start = 0 if (v.start is None and step > 0) else v.start
+                    v = slice(start, v.stop, step)
                 return ('const', repr(v))
             return None
+        rec = lambda x: self.canon_spec(x, norm)
         tag = s[0]
         if tag == 'task':
             return ('task', s[1])
         if tag == 'identity':
             # identity(x) is x for a task or tasklet only (for anything else it is a new task)
-            return self.canon_spec(s[1]) if s[1][0] in ('task', 'getitem', 'iteratetask', 'fun', 'return_tuple', 'mapelem', 'identity') else None
+            return rec(s[1]) if s[1][0] in ('task', 'getitem', 'iteratetask', 'fun', 'return_tuple', 'mapelem', 'identity') else None
         if tag == 'getitem':
-            b = self.canon_spec(s[1])
-            i = const(s[2][1]) if s[2][0] == 'val' else self.canon_spec(s[2])
+            b = rec(s[1])
+            i = const(s[2][1]) if s[2][0] == 'val' else rec(s[2])
             return None if b is None or i is None else ('getitem', b, i)
         if tag == 'iteratetask':
-            b = self.canon_spec(s[1])
+            b = rec(s[1])
             return None if b is None else ('getitem', b, ('const', repr(s[3])))
         if tag == 'fun' or tag == 'return_tuple':
-            b = self.canon_spec(s[1])
+            b = rec(s[1])
             f = s[2] if tag == 'fun' else ('getcheck', s[3], s[2])
             return None if b is None else ('fun', b, f)
         if tag == 'custom':
-            b = self.canon_spec(s[1])
+            b = rec(s[1])
             return None if b is None else ('custom', b)
         if tag == 'mapseq':
             return ('mapseq', s[1])
